@@ -128,6 +128,7 @@ def run(F, chk):
         else:
             rc.violation(key, b.where(oks[0][0]), "%s can return Ok although an invalid header field was seen" % fn.split("::")[-1])
     content_length_rule(F, chk)
+    colon_name_rule(F, chk)
     # ---------------- R-C03-d ----------------------------------------------------
     rd = chk.rule("R-C03-d", "T3", "an unparsable HTTP/1 request is answered 400 and never linked to a backend", floor=1)
     rdb = [p for p in F.paths() if p.startswith(MUX + "h1::ConnectionH1") and p.endswith("::readable") and "{closure" not in p]
@@ -224,3 +225,57 @@ def content_length_rule(F, chk):
         r.ok(key, b.where(starts[0]), "every accepting path for a content-length field passes set_content_length")
     else:
         r.violation(key, b.where(starts[0]), "a content-length field can be accepted (Ok) without set_content_length having recorded it: an unparsable / overflowing value is forwarded while the body framing is recomputed (CL.TE / CL.CL)")
+
+
+def colon_name_rule(F, chk):
+    """R-C03-g: classify_invalid_h2_header does not validate the bytes of a name that starts with ':' (pseudo-header
+    names are matched exactly by its callers).  That is a contract: every per-field closure that forwards a field NAME
+    (write_regular_header(kawa, k, v), or storage.write_all(k)) must do so only on the false edge of a `starts_with(b":")`
+    test of that name - otherwise `:x\r\nGET /admin ...` style names reach the HTTP/1 serializer unvalidated."""
+    r = chk.rule("R-C03-g", "T5", "a field name starting with ':' never reaches a name-forwarding sink", floor=3)
+    cl = F.body(CLASSIFY)
+    # the contract exists only while classify skips ':' names; detect the skip: a comparison of name[0] with b':' (0x3a)
+    skip = False
+    for bi, si, s2 in cl.stmts():
+        rv = s2.get("rv")
+        if rv and rv["k"] == "bin" and rv["op"] in ("Eq", "Ne"):
+            for o in (rv["a"], rv["b"]):
+                if op_const(o) == 0x3a:
+                    skip = True
+    if not skip:
+        r.ok("classify validates ':' names itself", cl.where(), "no `name[0] != b':'` exemption in classify_invalid_h2_header", nontrivial=False)
+    n = 0
+    for root in (PK + "handle_header", PK + "handle_trailer"):
+        for fp in F.paths():
+            if not (fp.startswith(root + "::") and "{closure" in fp):
+                continue
+            cb = F.body(fp)
+            if cb.argc < 2:
+                continue
+            sinks = []
+            for x, tt in cb.calls():
+                c = callee_of(tt)
+                if c == PK + "write_regular_header":
+                    sinks.append((x, c))
+                elif c.endswith("::write_all") and any(2 in guards.slice_of_operand(cb, a)["locals"] for a in tt["args"][1:]):
+                    sinks.append((x, c))
+            if not sinks:
+                continue
+            r.fn(fp)
+            def pred(sb, truth, atom):
+                if atom[0] != "call" or not atom[1].endswith("::starts_with") or truth is not False:
+                    return False
+                args = atom[2]["args"]
+                hay = guards.slice_of_operand(cb, args[0])
+                ndl = guards.slice_of_operand(cb, args[1])
+                return 2 in hay["locals"] and any('b":"' in str(c) for c in ndl["consts"])
+            edges = lib.edges_where(cb, pred)
+            for i, (x, c) in enumerate(sinks):
+                n += 1
+                key = "%s|name sink %s#%d" % (fp, c.split("::")[-1], i)
+                if not skip:
+                    r.ok(key, cb.where(x), "classify validates every name", nontrivial=False)
+                elif edges and lib.guarded_by(cb, x, edges):
+                    r.ok(key, cb.where(x), "only on the false edge of name.starts_with(b\":\")")
+                else:
+                    r.violation(key, cb.where(x), "a field whose name starts with ':' can reach %s: classify_invalid_h2_header exempts such names from byte validation, so CR/LF in the name is forwarded to the HTTP/1 side" % c.split("::")[-1])
